@@ -259,7 +259,7 @@ def run_sdthread(case, res):
 # (c) retain.history
 # --------------------------------------------------------------------------
 HISTORIES = ["completed", "failed", "cancelled_in_flight", "cancelled_queued", "cancelled_between_retries", "cancelled_polling",
-             "completed_after_retry"]
+             "completed_after_retry", "completed_at_submit"]
 
 
 def run_retain(case, res):
@@ -286,7 +286,11 @@ def run_retain(case, res):
             if hist == "cancelled_queued":
                 filler = b.top.submit(Job("filler", 0), 0)
                 instr.advance(0.05)
+            if hist == "completed_at_submit":
+                # the delegate finishes the work before its submit() returns (a synchronous / very fast delegate)
+                me.auto = harness.run_inline
             f = b.top.submit(job, arg)
+            me.auto = None
             wr["future"] = weakref.ref(f)
             instr.advance(0.05)
             mine = [k for k, it in enumerate(me.items) if it[1] is job]
